@@ -127,6 +127,7 @@ type c18Hist struct {
 	ucalls int
 	seq    byte
 	store  func(abs, cnt int64) // optional: told about every (absolute offset, count accepted) the property predicts
+	sh     *c18Hist             // optional: the history that owns the response script (several writers over one mock)
 }
 
 func c18New(off, n int64) *c18Hist {
@@ -153,9 +154,13 @@ func (h *c18Hist) Resp(k int64, e int) {
 func (h *c18Hist) under(m int64) int64 {
 	h.ucalls++
 	cnt := m
-	if h.ri < len(h.resp) {
-		r := h.resp[h.ri]
-		h.ri++
+	o := h
+	if h.sh != nil {
+		o = h.sh
+	}
+	if o.ri < len(o.resp) {
+		r := o.resp[o.ri]
+		o.ri++
 		if r[0] < m {
 			cnt = r[0]
 			h.ev["F"] = true // short count from the underlying writer
